@@ -29,7 +29,7 @@ def load_cases():
     # contradicting verdict is a data-entry error of that round: the first record wins
     seen_edit, uniq = {}, []
     for c in cases:
-        k = (c['path'], c['find'], c['replace'])
+        k = (c['path'], c['find'], c['replace'], c.get('patch'))
         if k in seen_edit:
             continue
         seen_edit[k] = c
@@ -43,6 +43,20 @@ def load_cases():
             k += 1
         used.add(c['id'])
     ids = {c['id'] for c in cases}
+    # seeded changes written by independent sub-agents (kept under /verif/seeded/<id>/)
+    seeded = os.path.join(VERIF, 'seeded')
+    if os.path.isdir(seeded):
+        for sid in sorted(os.listdir(seeded)):
+            mp = os.path.join(seeded, sid, 'meta.json')
+            if not os.path.exists(mp):
+                continue
+            with open(mp) as fh:
+                meta = json.load(fh)
+            c = {'id': 'SEED-' + sid, 'patch': 'seeded/%s/patch.diff' % sid, 'path': ', '.join(meta.get('files_changed') or [])[:60],
+                 'find': '', 'replace': '', 'props': [meta['property']], 'origin': 'seeded change (sub-agent)',
+                 'expect': meta.get('selftest_expect', 'report')}
+            cases.append(c)
+            ids.add(c['id'])
     for c in extra_cases.EXTRA:
         if c['id'] in ids:
             raise ValueError('duplicate self-test id %s' % c['id'])
@@ -59,8 +73,39 @@ def armed_props():
     return out
 
 
+def _apply_patch(root, patch_file):
+    """apply a unified diff to copies of the touched files (temporary directory) -> overlay dict"""
+    import re
+    import shutil
+    import subprocess
+    import tempfile
+    text = open(patch_file, encoding='utf-8').read()
+    files = sorted(set(re.findall(r'^\+\+\+ b/(\S+)', text, re.M)) | set(re.findall(r'^--- a/(\S+)', text, re.M)))
+    tmp = tempfile.mkdtemp(prefix='sa_selftest_')
+    try:
+        for rel in files:
+            src = os.path.join(root, rel)
+            dst = os.path.join(tmp, rel)
+            os.makedirs(os.path.dirname(dst), exist_ok=True)
+            if os.path.exists(src):
+                shutil.copy(src, dst)
+        r = subprocess.run(['patch', '-p1', '-s', '-f', '-d', tmp, '-i', patch_file], capture_output=True, text=True)
+        if r.returncode != 0:
+            return None, 'patch does not apply: %s' % (r.stdout + r.stderr)[-200:]
+        overlay = {}
+        for rel in files:
+            dst = os.path.join(tmp, rel)
+            if os.path.exists(dst):
+                overlay[rel] = open(dst, encoding='utf-8').read()
+        return overlay, None
+    finally:
+        shutil.rmtree(tmp, ignore_errors=True)
+
+
 def _apply(root, case):
     """-> overlay dict or (None, reason)"""
+    if case.get('patch'):
+        return _apply_patch(root, os.path.join(VERIF, case['patch']))
     overlay = {}
     edits = case.get('edits') or [case]
     for e in edits:
